@@ -29,8 +29,11 @@ def run(ctx, rep):
     rep.rule("X2", "for every rank 1..4 and all radices, symbolically: encoder(idx) = sum_k idx_k * prod_{j>k} n_j (row-major), "
                    "decoder(encoder(idx)) = idx and encoder(decoder(s)) = s for 0 <= s < prod n", floor=12)
     rep.rule("X3", "lists indexed by two outcome indices are filled in the order their reported shape concatenates the operands", floor=4)
+    rep.rule("X4", "a distribution re-created from a reduced / sliced probability array reports that array's own axis sizes, in the "
+                   "array's axis order (numpy reductions and mask selections keep the surviving axes in ascending order)", floor=2)
     enc = ix.func(U + "index_serial_from_index_multi_dimensional")
     dec = ix.func(U + "index_multi_dimensional_from_index_serial")
+    _x4(ctx, rep)
     # ---- X1
     for q, shapes in USERS.items():
         f = ix.func(q)
@@ -104,3 +107,101 @@ def run(ctx, rep):
                 con = "%s: fill operand-%d-major, shape operand %d first" % (h.name, o_outer, s1)
                 rep.check(s1 == o_outer, "X3", h, con, "layout and shape agree", "the slow index of the list belongs to operand %d but the shape "
                           "lists operand %d first: the multi-index is mislabelled when outcome counts differ" % (o_outer, s1), node=snode)
+
+
+
+# ------------------------------------------------------------------------------ X4
+def _x4(ctx, rep):
+    from ..astutil import single_defs
+    from ..tables import flat_order
+    ix = ctx.ix
+    cls = ix.cls("quara.objects.multinomial_distribution.MultinomialDistribution")
+    for mname in ("marginalize", "conditionalize"):
+        m = cls.methods.get(mname)
+        if m is None:
+            raise AnalysisError("MultinomialDistribution.%s not found" % mname)
+        calls = [n for n in own_nodes(m.node) if isinstance(n, ast.Call) and isinstance(n.func, ast.Name) and n.func.id == "MultinomialDistribution"]
+        if len(calls) != 1:
+            rep.undecided("X4", m, "re-creation", "expected one MultinomialDistribution(ps, shape) call, found %d" % len(calls))
+            continue
+        call = calls[0]
+        ps = call.args[0] if call.args else kwarg(call, "ps")
+        sh = call.args[1] if len(call.args) > 1 else kwarg(call, "shape")
+        if ps is None or sh is None:
+            rep.undecided("X4", m, call, "ps / shape argument missing")
+            continue
+        # all bindings of a local, in order
+        binds = {}
+        for n in sorted((x for x in own_nodes(m.node) if isinstance(x, ast.Assign) and len(x.targets) == 1 and isinstance(x.targets[0], ast.Name)),
+                        key=lambda x: x.lineno):
+            binds.setdefault(n.targets[0].id, []).append(n.value)
+
+        def chain(e):
+            """follow name -> its bindings, returning the list of expressions from last to first"""
+            out = [e]
+            seen = set()
+            while isinstance(out[-1], ast.Name) and out[-1].id in binds and out[-1].id not in seen:
+                nm = out[-1].id
+                seen.add(nm)
+                out.extend(reversed(binds[nm]))
+            return out
+        # the array that is flattened
+        arr = None
+        for e in chain(ps):
+            x = e
+            if isinstance(x, ast.BinOp) and isinstance(x.op, ast.Div):
+                x = x.left
+            o, base = flat_order(ctx, x)
+            if o == "C":
+                arr = base
+                break
+            if o == "F":
+                rep.violation("X4", m, call, "probabilities are flattened column-major (`%s`) while every index user assumes row-major" % unparse(x), node=call)
+                arr = False
+                break
+        if arr is False:
+            continue
+        if arr is None:
+            rep.undecided("X4", m, call, "ps `%s` is not a row-major flatten of an array" % unparse(ps))
+            continue
+        arr_t = unparse(arr)
+        sh_chain = chain(sh)
+        texts = [unparse(e).replace(" ", "") for e in sh_chain]
+        if any(t in ("%s.shape" % arr_t, "tuple(%s.shape)" % arr_t, "list(%s.shape)" % arr_t) for t in texts):
+            rep.holds("X4", m, call, "shape is %s.shape, the flattened array's own" % arr_t, node=call)
+            continue
+        # the array is a selection / reduction of self.ps.reshape(self.shape): surviving axes ascend
+        src = None
+        for e in chain(arr):
+            t = unparse(e).replace(" ", "")
+            if t.startswith(("np.sum(self.ps.reshape(self.shape),", "self.ps.reshape(self.shape)[")):
+                src = e
+                break
+        if src is None:
+            rep.undecided("X4", m, call, "flattened array `%s` is not a reduction / selection of self.ps.reshape(self.shape)" % arr_t)
+            continue
+        # accepted: boolean-mask selection of self.shape (order preserving)
+        mask_ok = False
+        for e in sh_chain:
+            if isinstance(e, ast.Subscript) and unparse(e.value).replace(" ", "") == "np.array(self.shape)" and isinstance(e.slice, ast.Name):
+                mk = e.slice.id
+                inits = [unparse(v).replace(" ", "") for v in binds.get(mk, [])]
+                stores = [n for n in own_nodes(m.node) if isinstance(n, ast.Assign) and isinstance(n.targets[0], ast.Subscript)
+                          and unparse(n.targets[0].value) == mk]
+                mask_ok = bool(inits) and all(i.startswith("[True]*") for i in inits) and all(unparse(s_.value) == "False" for s_ in stores)
+        if mask_ok:
+            rep.holds("X4", m, call, "shape is a boolean-mask selection of self.shape: surviving sizes stay in axis order", node=call)
+            continue
+        # caller-ordered selection: [self.shape[i] for i in <parameter>]
+        bad = None
+        for e in sh_chain:
+            for c in ast.walk(e):
+                if isinstance(c, (ast.GeneratorExp, ast.ListComp)) and len(c.generators) == 1 and isinstance(c.generators[0].iter, ast.Name) \
+                        and c.generators[0].iter.id in m.params and "self.shape[" in unparse(c.elt):
+                    bad = c
+        if bad is not None:
+            rep.violation("X4", m, call, "the reported shape `%s` lists the sizes in the caller's order of `%s`, but `%s` keeps the surviving axes "
+                                         "in ascending order: for a non-sorted request with unequal sizes the probabilities are read with "
+                                         "the wrong strides" % (unparse(bad), bad.generators[0].iter.id, unparse(src)[:60]), node=call)
+        else:
+            rep.undecided("X4", m, call, "shape `%s` is neither the flattened array's .shape nor a mask selection of self.shape" % unparse(sh))
